@@ -13,6 +13,17 @@ CLAIMED = {
         "reference scoping used only as search oracle. Theorems are closed under the global context.",
    technique="Coq proof over Gallina model + vm_compute correspondence against the real Resolver and API.parse",
    design="7/C04"),
+ 'C20': dict(
+   text="Coq theorems about a Gallina model of packaging.target.execute() and of the build/package/publish step lists of the "
+        "aar, nuget and swiftpackage plugins, for ALL step lists and ALL outcome sequences of the external tools: the working "
+        "directory is restored, the first missing/non-zero command stops the pipeline with code 130 and nothing after it runs, "
+        "and a failing package step leaves no artifact (stale ones included). Tied to /repo by running the real pipelines with "
+        "os.system/shutil.which replaced by an outcome oracle, a fault injected at every invocation point, and comparing "
+        "result, invocation log, artifact presence and cwd with the model under vm_compute.",
+   note="Trusted: Coq kernel+vm_compute; the in-process tool oracle (real conan/gradle/nuget/xcodebuild/git are not available "
+        "offline) and its simulation of the files a successful tool leaves; hypothesis that a failing tool writes no artifact.",
+   technique="Coq proof over Gallina state-machine model + fault-injection correspondence (vm_compute) against the real packaging code",
+   design="7/C20"),
 }
 PENDING_REASON = "check not built yet in this session (work in progress; see DESIGN.md section 10 build order)"
 HOOK_COMMITS = []
